@@ -432,7 +432,24 @@ func checkItCase(c itCase, rec *Rec) error {
 		it := itertools.MultisetCombinations(m, c.K)
 		name := fmt.Sprintf("MultisetCombinations(%v,%d)", c.M, c.K)
 		var inner error
+		// the observers need not be called after every step: FreqValue is read on every stride-th step only (stride 1, 2,
+		// 3 or 5, from the case), on the other steps the frequencies are counted from Value
+		stride := []int{1, 2, 3, 5}[(c.K+len(c.M))%4]
+		step := 0
 		err := drive(name, it.Next, func() any {
+			step++
+			if step%stride != 0 {
+				v := cp(it.Value())
+				cnt := make([]int, len(c.M))
+				for _, x := range v {
+					if x < 0 || x >= len(c.M) {
+						inner = fmt.Errorf("%s: Value %v has an element outside 0..%d", name, v, len(c.M)-1)
+						return cnt
+					}
+					cnt[x]++
+				}
+				return cnt
+			}
 			f := cp(it.FreqValue())
 			v := cp(it.Value())
 			// Value must be the multiset described by FreqValue
